@@ -54,6 +54,9 @@ type c16Cand struct{ User, Pass string }
 
 var c16Users = []string{"alice", "bob", "carol", "dave", "erin", "frank"}
 
+// user names that are never in a table
+var c16Absent = []string{"nobody", "zed", "aaa", "mallory", "0", "trent", "~", "alic", "alicea", "Bob"}
+
 func c16Pass(u string) string { return "pw-" + u }
 
 // c16CheckTable loads the table through the real FileHandler and tries the candidates.
@@ -63,7 +66,11 @@ func c16CheckTable(c *fw.Ctx, dir string, id int, table []c16Entry) {
 		lines[i] = e.line()
 	}
 	path := filepath.Join(dir, fmt.Sprintf("cred-%d.csv", id))
-	if err := os.WriteFile(path, []byte(strings.Join(lines, "\n")+"\n"), 0600); err != nil {
+	content := strings.Join(lines, "\n") + "\n"
+	if len(table) == 0 {
+		content = []string{"", "\n", "\n\n\n"}[id%3] // an empty store: no lines, or blank lines only
+	}
+	if err := os.WriteFile(path, []byte(content), 0600); err != nil {
 		c.Inconclusive("cannot write credential file: " + err.Error())
 		return
 	}
@@ -105,7 +112,21 @@ func c16CheckTable(c *fw.Ctx, dir string, id int, table []c16Entry) {
 	for _, e := range table {
 		byUser[e.User] = e
 	}
-	cands := []c16Cand{{"", ""}, {"nobody", "pw-nobody"}, {"", c16Pass(table[0].User)}, {table[0].User, ""}}
+	cands := []c16Cand{{"", ""}, {"nobody", "pw-nobody"}, {"nobody", ""}}
+	if len(table) > 0 {
+		cands = append(cands, c16Cand{"", c16Pass(table[0].User)}, c16Cand{table[0].User, ""})
+	} else {
+		for _, u := range c16Users {
+			cands = append(cands, c16Cand{u, c16Pass(u)}, c16Cand{u, ""})
+		}
+	}
+	// absent users (their hashes fall before, between and after the stored ones) with every stored password
+	for _, a := range c16Absent {
+		cands = append(cands, c16Cand{a, c16Pass(a)})
+		for _, o := range table {
+			cands = append(cands, c16Cand{a, o.Pass})
+		}
+	}
 	for _, e := range table {
 		cands = append(cands, c16Cand{e.User, e.Pass})
 		cands = append(cands, c16Cand{e.User, e.Pass + "x"})
@@ -163,7 +184,7 @@ func indexOfUser(t []c16Entry, u string) int {
 }
 
 func runC16(c *fw.Ctx) {
-	c.Rule = "credential files: every table of 1-3 (quick) / 1-4 (thorough) distinct users out of 6, in every order, each line with 2 fields, 3 fields and a mount point, or 3 fields and an empty mount point - enumerated completely - plus seeded tables of 4-6 entries; each table is written to disk and loaded by the real FileHandler; candidates = every present pair, wrong password, the stored hash presented as password, every swapped pair, absent user, empty user and/or password. Oracle: exact lookup in the generated table, mount point = third field or the default when absent/empty. Static handler likewise. distinct = (table, candidate set); non-trivial = table has >=2 entries or a 3-field line. End-to-end part: CONNECTs against a broker node with the file/static handler"
+	c.Rule = "credential files: the empty store and every table of 1-3 (quick) / 1-4 (thorough) distinct users out of 6, in every order, each line with 2 fields, 3 fields and a mount point, or 3 fields and an empty mount point - enumerated completely - plus seeded tables of 4-6 entries; each table is written to disk and loaded by the real FileHandler; candidates = every present pair, wrong password, the stored hash presented as password, every swapped pair, ten absent users (hashes before/between/after the stored ones) each with every stored password, empty user and/or password. Oracle: exact lookup in the generated table, mount point = third field or the default when absent/empty. Static handler likewise. distinct = (table, candidate set); non-trivial = table has >=2 entries or a 3-field line. End-to-end part: CONNECTs against a broker node with the file/static handler"
 	c.Assume("second field of a credential line = lowercase hex SHA-256 of the password (the loader stores it into PasswordHash and compares it with the hash of the presented password)")
 	c.Assume("user names are distinct within a table and free of CSV metacharacters")
 	dir := os.Getenv("VERIF_WORK")
@@ -200,6 +221,7 @@ func runC16(c *fw.Ctx) {
 		}
 	}
 	rec(nil, 0)
+	tables = append(tables, []c16Entry{}, []c16Entry{}, []c16Entry{}) // the empty store, three spellings
 	exhaustiveN := len(tables)
 	// seeded larger tables
 	rg := c.SubRng("c16", 0)
